@@ -73,7 +73,7 @@ func c06Pool(tier string) []string {
 	if tier == "thorough" {
 		return []string{"default", "tiny", "literals", "seedA", "seedB", "gogarble", "ctrlflow", "lit-seedA"}
 	}
-	return []string{"default", "tiny", "literals", "seedA", "ctrlflow"}
+	return []string{"default", "tiny", "literals", "seedA", "ctrlflow", "gogarble"}
 }
 
 func c06TmplCfgs(tier string) []world.Config {
@@ -138,6 +138,7 @@ func (c c06) Generate(e *Env) ([]*Case, error) {
 		{"default", "default+X1"}, {"default+X1", "default+X2"},
 		{"default", "default+tags"}, {"seedA", "seedA+X1"},
 		{"default", "ctrlflow"}, {"ctrlflow", "default"},
+		{"default", "gogarble"}, {"gogarble", "default"},
 	}
 	if thorough {
 		pairs = append(pairs, [][2]string{
